@@ -162,6 +162,12 @@ def insertion_cases():
                lambda t, c: t['entries'].append(('loop', ['_n1', '_n3'], [[u('1'), u('3')], [u('4'), UNK]])))
             mk('dup-first-in-header-then-partial-packet', ['loop_', first_name, '_n2', '_n3', '1 2 3', '4 5'], CIF_DUP_ITEMNAME,
                lambda t, c: t['entries'].append(('loop', ['_n2', '_n3'], [[u('2'), u('3')], [u('5'), UNK]])))
+        # a data name no item can bear: reported, then handled like a duplicate (the item and its values are dropped)
+        mk('invalid-name-scalar', ['_ bare'], CIF_INVALID_ITEMNAME)
+        mk('invalid-name-in-loop-header', ['loop_', '_n1', '_', '_n3', '1 2 3', '4 5 6'], CIF_INVALID_ITEMNAME,
+           lambda t, c: t['entries'].append(('loop', ['_n1', '_n3'], [[u('1'), u('3')], [u('4'), u('6')]])))
+        # a table key holding a character the data model disallows: the character is reported, then the key; the entry is dropped
+        mk('disallowed-char-in-table-key', ["_dk {'a\x01b':1 'c':2}"], CIF_DISALLOWED_CHAR, lambda t, c: set_item(t, '_dk', ('table', (('c', u('2')),))))
         mk('partial-packet-1', ['loop_', '_n1', '_n2', '_n3', '1 2 3', '4 5'], CIF_PARTIAL_PACKET,
            lambda t, c: t['entries'].append(('loop', ['_n1', '_n2', '_n3'], [[u('1'), u('2'), u('3')], [u('4'), u('5'), UNK]])))
         mk('partial-packet-2', ['loop_', '_n1', '_n2', '_n3', '1'], CIF_PARTIAL_PACKET,
